@@ -333,7 +333,7 @@ def tidal_potential(
     static_term_partial2_theta2 = static_coeff * dp2_20_dtheta2
 
     # Prepare global coefficient
-    global_coefficient = (3. / 2.) * G * host_mass * radius**2 / semi_major_axis**3
+    global_coefficient = (3. / 2.) * G * host_mass * radius**2 / (1. * semi_major_axis)**3
 
     # Build storage for the potential and its derivatives by mode
     oen_shape = o + e + n
